@@ -126,13 +126,23 @@ pub fn norm_block_with(b: &Block, merge: bool) -> Block {
 /// list take the item's place and what follows that list belongs to the last of them; a leading list
 /// of empty items carries nothing, the item is then what follows it.  (Applied to the intended and to
 /// the observed document alike.)
+/// a block that is not written at all: dropped raw HTML, or a quote / list holding nothing but such blocks
+fn carries_nothing(b: &Block) -> bool {
+    match b.k.as_str() {
+        "Html" => true,
+        "Q" => b.c.iter().all(carries_nothing),
+        "BL" | "OL" => b.items.iter().all(|it| it.iter().all(carries_nothing)),
+        _ => false,
+    }
+}
+
 fn merge_leading_lists(items: Vec<Vec<Block>>) -> Vec<Vec<Block>> {
     let mut out: Vec<Vec<Block>> = vec![];
     for it in items {
         let mut it = it;
         loop {
             // raw HTML blocks are dropped (documented): an item whose list comes right after them starts with that list
-            let html = it.iter().take_while(|b| b.k == "Html").count();
+            let html = it.iter().take_while(|b| carries_nothing(b)).count();
             if html > 0 && it.get(html).map(|f| f.k == "BL" || f.k == "OL").unwrap_or(false) {
                 it = it[html..].to_vec();
             }
@@ -143,7 +153,7 @@ fn merge_leading_lists(items: Vec<Vec<Block>>) -> Vec<Vec<Block>> {
             }
             let inner = it[0].items.clone(); // already merged: norm_block works bottom-up
             let rest: Vec<Block> = it[1..].to_vec();
-            if inner.iter().all(|x| x.iter().all(|b| b.k == "Html")) {
+            if inner.iter().all(|x| x.iter().all(carries_nothing)) {
                 it = rest;
                 if it.is_empty() {
                     out.push(it);
@@ -154,7 +164,7 @@ fn merge_leading_lists(items: Vec<Vec<Block>>) -> Vec<Vec<Block>> {
             let at = out.len();
             out.extend(inner);
             // (an item that holds only dropped HTML carries nothing either)
-            if let Some(last) = (at..out.len()).rev().find(|i| out[*i].iter().any(|b| b.k != "Html")) {
+            if let Some(last) = (at..out.len()).rev().find(|i| out[*i].iter().any(|b| !carries_nothing(b))) {
                 out[last].extend(rest);
             }
             break;
